@@ -14,6 +14,8 @@
    and may lose (the statement says "disposed before its due time").
    No order, no seriality, no thread identity: the statement gives none for these schedulers.
 
+   schedule_periodic (NewThread / ThreadPool dedicated thread, EventLoop / Timeout self-rescheduling) is the same object with
+   End re-arming the item one period after the start of the run just finished, until a cancel linearizes.
    The guards are the property; NotEarly / CancelledBeforeDueNeverRuns / AtMostOnce restate it over history
    variables and TLC checks the agreement on every interleaving of the generator.
    (ImmediateScheduler - synchronous, WouldBlockException for a positive delay - is ImmediateSched.tla.) *)
@@ -29,42 +31,49 @@ NoCall == [op |-> "none", item |-> 0, d |-> 0, t0 |-> 0, lin |-> FALSE, res |-> 
 VARIABLES now, ist,    \* item -> "new" | "pending" | "cancelled" | "committed" | "running" | "done"
           due, pend, handle,
           runTh, startT, starts,   \* history: who started it, when, how often
-          early,                   \* items a cancel of which returned strictly before the due time
+          per,                     \* item -> period of a periodic item (0 = one-shot)
+          stopped,                 \* periodic items whose cancel has linearized: the current run is the last
+          limit,                   \* item -> number of starts allowed once a cancel of it has RETURNED (NoLimit before)
           calls
 
-vars == <<now, ist, due, pend, handle, runTh, startT, starts, early, calls>>
+vars == <<now, ist, due, pend, handle, runTh, startT, starts, per, stopped, limit, calls>>
+NoLimit == 1000000
 
 Init == /\ now = 0 /\ ist = [x \in Items |-> "new"] /\ due = [x \in Items |-> 0]
         /\ pend = [t \in Threads |-> NoCall] /\ handle = {}
         /\ runTh = [x \in Items |-> 0] /\ startT = [x \in Items |-> 0] /\ starts = [x \in Items |-> 0]
-        /\ early = {} /\ calls = 0
+        /\ per = [x \in Items |-> 0] /\ stopped = {} /\ limit = [x \in Items |-> NoLimit] /\ calls = 0
 
-IsSched(op) == op \in {"imm", "rel", "abs"}
+IsSched(op) == op \in {"imm", "rel", "abs", "per"}
 Picked(x)   == ist[x] \in {"committed", "running", "done"}
 
 Call(th, op, x, d) ==
     /\ pend[th] = NoCall
     /\ pend' = [pend EXCEPT ![th] = [op |-> op, item |-> x, d |-> d, t0 |-> now, lin |-> FALSE, res |-> "-"]]
     /\ calls' = calls + 1
-    /\ UNCHANGED <<now, ist, due, handle, runTh, startT, starts, early>>
+    /\ UNCHANGED <<now, ist, due, handle, runTh, startT, starts, per, stopped, limit>>
 
 \* the due time the statement speaks of: relative to the clock when the call was made, or absolute
 DueOf(p) == CASE p.op = "imm" -> p.t0
               [] p.op = "rel" -> p.t0 + (IF p.d > 0 THEN p.d ELSE 0)
               [] p.op = "abs" -> p.d
+              [] p.op = "per" -> p.t0 + p.d          \* schedule_periodic(period): the first run is due one period after the call
 
 LinSched(th) ==
     /\ IsSched(pend[th].op) /\ ~pend[th].lin
     /\ pend' = [pend EXCEPT ![th].lin = TRUE, ![th].res = "ok"]
     /\ ist' = [ist EXCEPT ![pend[th].item] = "pending"]
     /\ due' = [due EXCEPT ![pend[th].item] = DueOf(pend[th])]
-    /\ UNCHANGED <<now, handle, runTh, startT, starts, early, calls>>
+    /\ per' = [per EXCEPT ![pend[th].item] = IF pend[th].op = "per" THEN pend[th].d ELSE 0]
+    /\ UNCHANGED <<now, handle, runTh, startT, starts, stopped, limit, calls>>
 
+\* dispose of the returned disposable: a pending (run of an) item is removed; a periodic item gets no further run
 LinCancel(th) ==
     /\ pend[th].op = "cancel" /\ ~pend[th].lin
     /\ pend' = [pend EXCEPT ![th].lin = TRUE, ![th].res = "ok"]
     /\ ist' = [ist EXCEPT ![pend[th].item] = IF @ = "pending" THEN "cancelled" ELSE @]
-    /\ UNCHANGED <<now, due, handle, runTh, startT, starts, early, calls>>
+    /\ stopped' = stopped \cup {pend[th].item}
+    /\ UNCHANGED <<now, due, handle, runTh, startT, starts, per, limit, calls>>
 
 Lin(th) == LinSched(th) \/ LinCancel(th)
 
@@ -72,29 +81,36 @@ Ret(th) ==
     /\ pend[th].lin
     /\ pend' = [pend EXCEPT ![th] = NoCall]
     /\ handle' = IF IsSched(pend[th].op) THEN handle \cup {pend[th].item} ELSE handle
-    /\ early' = IF pend[th].op = "cancel" /\ now < due[pend[th].item] THEN early \cup {pend[th].item} ELSE early
-    /\ UNCHANGED <<now, ist, due, runTh, startT, starts, calls>>
+    \* history: once a cancel has returned, the item starts at most as often as it already has (one more if it is committed)
+    /\ limit' = IF pend[th].op = "cancel" /\ limit[pend[th].item] = NoLimit
+                 THEN [limit EXCEPT ![pend[th].item] = starts[pend[th].item] + (IF ist[pend[th].item] = "committed" THEN 1 ELSE 0)]
+                 ELSE limit
+    /\ UNCHANGED <<now, ist, due, runTh, startT, starts, per, stopped, calls>>
 
 \* the executing thread's last look at the cancellation flag
 Commit(x) ==
     /\ ist[x] = "pending" /\ now >= due[x]
     /\ ist' = [ist EXCEPT ![x] = "committed"]
-    /\ UNCHANGED <<now, due, pend, handle, runTh, startT, starts, early, calls>>
+    /\ UNCHANGED <<now, due, pend, handle, runTh, startT, starts, per, stopped, limit, calls>>
 
 Start(th, x) ==
     /\ ist[x] = "committed"
     /\ ist' = [ist EXCEPT ![x] = "running"]
     /\ runTh' = [runTh EXCEPT ![x] = th] /\ startT' = [startT EXCEPT ![x] = now]
     /\ starts' = [starts EXCEPT ![x] = @ + 1]
-    /\ UNCHANGED <<now, due, pend, handle, early, calls>>
+    /\ UNCHANGED <<now, due, pend, handle, per, stopped, limit, calls>>
 
+\* a one-shot item is done; a periodic item that was not cancelled is pending again, due one period after the START of this run
+\* (both periodic implementations correct for the time the run took; a run that overran its period makes the next one due at once)
 End(th, x) ==
     /\ ist[x] = "running" /\ runTh[x] = th
-    /\ ist' = [ist EXCEPT ![x] = "done"]
-    /\ UNCHANGED <<now, due, pend, handle, runTh, startT, starts, early, calls>>
+    /\ IF per[x] > 0 /\ x \notin stopped
+       THEN ist' = [ist EXCEPT ![x] = "pending"] /\ due' = [due EXCEPT ![x] = startT[x] + per[x]]
+       ELSE ist' = [ist EXCEPT ![x] = "done"] /\ UNCHANGED due
+    /\ UNCHANGED <<now, pend, handle, runTh, startT, starts, per, stopped, limit, calls>>
 
 Tick == /\ now < MaxT /\ now' = now + 1
-        /\ UNCHANGED <<ist, due, pend, handle, runTh, startT, starts, early, calls>>
+        /\ UNCHANGED <<ist, due, pend, handle, runTh, startT, starts, per, stopped, limit, calls>>
 
 (* ---- generator ------------------------------------------------------------------------------------------ *)
 Fresh == {x \in Items : ist[x] = "new" /\ \A t \in Threads : pend[t].item # x}
@@ -105,6 +121,7 @@ GenCall(th) ==
     /\ \/ \E x \in NextFresh : Call(th, "imm", x, 0)
        \/ \E x \in NextFresh : \E d \in RelD : Call(th, "rel", x, d)
        \/ \E x \in NextFresh : \E t \in AbsT : Call(th, "abs", x, t)
+       \/ \E x \in NextFresh : \E d \in RelD : d > 0 /\ Call(th, "per", x, d)
        \/ \E x \in handle : /\ \A t \in Threads : ~(pend[t].op = "cancel" /\ pend[t].item = x)
                             /\ Call(th, "cancel", x, 0)
 
@@ -114,8 +131,11 @@ Next == \/ \E th \in Threads : GenCall(th) \/ Lin(th) \/ Ret(th)
 
 (* ---- the property, declaratively --------------------------------------------------------------------------- *)
 TypeOK == now \in 0..MaxT /\ \A x \in Items : ist[x] \in {"new", "pending", "cancelled", "committed", "running", "done"}
-NotEarly == \A x \in Items : starts[x] > 0 => startT[x] >= due[x]
-CancelledBeforeDueNeverRuns == \A x \in early : ~Picked(x) /\ starts[x] = 0
-AtMostOnce == \A x \in Items : starts[x] <= 1
+\* every run starts no earlier than its due time (for a periodic item: one period after the start of the previous run)
+NotEarly == \A x \in Items : ist[x] = "running" => startT[x] >= due[x]
+\* once a cancel has returned no further run starts; a cancel that returned before the due time means no run at all
+\* (Commit needs now >= due, so the item was still pending when the cancel linearized)
+CancelledBeforeDueNeverRuns == \A x \in Items : starts[x] <= limit[x]
+AtMostOnce == \A x \in Items : per[x] = 0 => starts[x] <= 1
 Quiet == \A t \in Threads : pend[t] = NoCall
 ================================================================================
